@@ -287,12 +287,13 @@ fn struct_init_block<'a>(input: &'a Struct, ctx: &ImplContext) -> TokenStream {
             fields.into_iter()
         }));
 
-    fields.extend(input.attrs.ghosts_attrs.iter()
-        .flat_map(|x| &x.attr.ghost_data)
-        .filter_map(|x| {
-            let res = make_tuple(x.get_child_path_str(None).into(), FieldData::GhostData(x));
-            res.1.then_some(res.0)
-        }));
+    if let Some(ghosts) = input.attrs.ghosts_attr(&ctx.struct_attr.ty, &ctx.kind) {
+        fields.extend(ghosts.ghost_data.iter()
+            .filter_map(|x| {
+                let res = make_tuple(x.get_child_path_str(None).into(), FieldData::GhostData(x));
+                res.1.then_some(res.0)
+            }));
+    }
 
     fields.sort_by(|a, b| a.gr_idx.cmp(&b.gr_idx));
 
@@ -402,9 +403,9 @@ fn enum_init_block(input: &Enum, ctx: &ImplContext) -> TokenStream {
     fields.extend(input.variants.iter()
         .map(VariantData::Variant).collect::<Vec<VariantData>>());
     
-    fields.extend(input.attrs.ghosts_attrs.iter()
-        .flat_map(|x| &x.attr.ghost_data)
-        .map(VariantData::GhostData));
+    if let Some(ghosts) = input.attrs.ghosts_attr(&ctx.struct_attr.ty, &ctx.kind) {
+        fields.extend(ghosts.ghost_data.iter().map(VariantData::GhostData));
+    }
 
     enum_init_block_inner(&mut fields.iter().peekable(), input, ctx)
 }
@@ -485,14 +486,16 @@ fn variant_destruct_block(input: &Struct, ctx: &ImplContext) -> TokenStream {
     };
 
     if ctx.kind.is_from() {
-        idents.extend(input.attrs.ghosts_attrs.iter().flat_map(|x| &x.attr.ghost_data).map(|x| {
-            let ghost_ident = x.ghost_ident.get_ident();
-            let ident = match ghost_ident {
-                Named(ident) => ident.to_token_stream(),
-                Unnamed(index) => format_ident!("f{}", index.index).to_token_stream(),
-            };
-            quote!(#ident ,)
-        }));
+        if let Some(ghosts) = input.attrs.ghosts_attr(&ctx.struct_attr.ty, &ctx.kind) {
+            idents.extend(ghosts.ghost_data.iter().map(|x| {
+                let ghost_ident = x.ghost_ident.get_ident();
+                let ident = match ghost_ident {
+                    Named(ident) => ident.to_token_stream(),
+                    Unnamed(index) => format_ident!("f{}", index.index).to_token_stream(),
+                };
+                quote!(#ident ,)
+            }));
+        }
     }
 
     match type_hint {
